@@ -85,6 +85,7 @@ def _check_batch_impl(args) -> dict:
 		f.write(program)
 	lines = program.split('\n')
 	nodes_checked = 0
+	fresh_table = None
 	for variant in ('fresh', 'restored'):
 		try:
 			if variant == 'fresh':
@@ -97,6 +98,13 @@ def _check_batch_impl(args) -> dict:
 		except Exception as e:
 			failures.append({'clause': f'accepted:{variant}', 'detail': f'{type(e).__name__}: {str(e)[:200]}', 'text': cases[0]['text'], 'kind': 'batch'})
 			continue
+		# every node of the restored tree carries the span of the fresh tree
+		table = {n.full_path: (tuple(n.source_map['begin']), tuple(n.source_map['end'])) for n in [module.entrypoint, *module.entrypoint.procedural()]}
+		if variant == 'fresh':
+			fresh_table = table
+		elif fresh_table is not None and table != fresh_table:
+			keys = [k for k in fresh_table if table.get(k) != fresh_table[k]]
+			failures.append({'clause': 'RestoredSpanEqualsFresh', 'detail': f'{len(keys)} nodes change their span when the tree goes through the cache encoding, e.g. {keys[0]}: fresh {fresh_table[keys[0]]} vs restored {table.get(keys[0])}', 'text': cases[0]['text'], 'kind': keys[0].split('.')[-1].split('[')[0]})
 		for case, fn in zip(cases, funcs):
 			ret = fn.statements[0]
 			line_no = ret.source_map['begin'][0]
@@ -178,8 +186,8 @@ def _tree_laws(root_node, lines: list[str], label: str) -> list[dict]:
 
 	def visit(n, parent_span):
 		b, e = span(n)
-		if b == (0, 0) and e == (0, 0):
-			return  # synthesised placeholder (Empty / proxy): no position
+		if isinstance(n, defs.Empty) or type(n).__name__ == 'Proxy':
+			return  # synthesised placeholder: no position of its own
 		kind = type(n).__name__
 		if not (b <= e):
 			failures.append({'clause': 'SpanOrdered', 'detail': f'{kind} {n.full_path}: begin {b} after end {e}', 'text': label, 'kind': kind})
